@@ -95,7 +95,7 @@ func lemmaFreqHasLocsRoundTrip(freq uint64, hasLocs bool) {
 
 //@ func (*memUvarintReader).ReadUvarint returns (v, err)
 //@ mode bv
-//@ requires r.C >= 0
+//@ wf requires r.C >= 0
 //@ wf requires r.C < len(r.S) ==> uvOK(row(r.S), off(r.S)+r.C) && uvLen(row(r.S), off(r.S)+r.C) <= len(r.S) - r.C
 //@ ensures old(r.C) >= len(r.S) ==> v == 0 && err == nil && r.C == old(r.C) [C01,C07]
 //@ ensures old(r.C) < len(r.S) ==> err == nil && v == uvVal(row(r.S), off(r.S)+old(r.C)) [C01,C06,C09]
@@ -108,7 +108,7 @@ func lemmaFreqHasLocsRoundTrip(freq uint64, hasLocs bool) {
 
 //@ func (*memUvarintReader).SkipUvarint
 //@ mode bv
-//@ requires r.C >= 0 && r.C <= 0x4000000000000000
+//@ wf requires r.C >= 0 && r.C <= 0x4000000000000000
 //@ wf requires r.C < len(r.S) ==> uvLen(row(r.S), off(r.S)+r.C) <= len(r.S) - r.C && (uvLen(row(r.S), off(r.S)+r.C) < 10 || row(r.S)[off(r.S)+r.C+9] < 0x80)
 //@ ensures old(r.C) >= len(r.S) ==> r.C == old(r.C) [C01,C07]
 //@ ensures old(r.C) < len(r.S) ==> r.C == old(r.C) + uvLen(row(r.S), off(r.S)+old(r.C)) [C01,C06,C07]
@@ -399,6 +399,11 @@ func verifModelBinaryWrite(w io.Writer, order binary.ByteOrder, data any) error 
 //@ ensures err == nil && postingsOffset & FSTValEncodingMask == FSTValEncoding1Hit ==> rv.docNum1Hit == postingsOffset & mask31Bits && rv.normBits1Hit == (postingsOffset >> 31) & mask31Bits [C06,C07,C08,C09]
 //@ ensures err == nil && postingsOffset & FSTValEncodingMask != FSTValEncoding1Hit ==> rv.normBits1Hit == 0 && rv.docNum1Hit == 0 [C07,C08]
 //@ ensures err == nil && postingsOffset & FSTValEncodingMask != FSTValEncoding1Hit ==> rv.postings != nil [C07,C08]
+//@ requires rv.postings != nil ==> bmSet(rv.postings) == sEmpty() [C02,C08]
+//@ ensures err == nil ==> plDocsIs(rv, docsAt(row(d.sb.mem), off(d.sb.mem), postingsOffset)) [C02,C08]
+//@ ensures rv.except == old(rv.except) && rv.sb == old(rv.sb)
+//@ ensures rv.postings == old(rv.postings) || (old(rv.postings) == nil && fresh(rv.postings))
+//@ modifies PostingsList.*[rv], alloc, new ghost bmSet, ghost bmSet[rv.postings], elems(any)
 //@ end
 
 // ---- C11 (and C02): exclusive ownership of pooled scratch objects ----
@@ -445,7 +450,7 @@ func verifModelBinaryWrite(w io.Writer, order binary.ByteOrder, data any) error 
 
 //@ func mergeAndPersistInvertedSection$1 returns (ok, docNum, normBits)
 //@ thin
-//@ tags [C06]
+//@ tags [C06,C09]
 //@ requires newRoaring != nil && locEncoder != nil
 //@ ensures ok ==> termCardinality == 1 && docNum <= 0x7fffffff && docNum == lastDocNum && lastFreq == 1 && normBits == lastNorm
 //@ ensures ok ==> 0 < normBits && normBits <= 0x7fffffff
@@ -580,14 +585,164 @@ func lemma1HitDiscriminator(docNum, normBits uint64) {
 
 // ---- C07: iterator construction/reuse and the single-hit state machine ----
 
+// ---- C07: the freq/norm (and location) decoders move in lock-step with the postings cursor ----
+// recsRead(i): number of freq/norm records consumed from the currently loaded chunk (ghost: reset by loadChunk,
+// incremented by every successful readFreqNormHasLocs / skipFreqNormReadHasLocs of a general-encoded list).
+// Lock-step: when the iterator hands out document n, the decoder has consumed exactly the records of the
+// documents of the full postings list that lie in n's chunk before n:
+//     recsRead == rank_all(n) - rank_all(first doc number of n's chunk)
+//@ ghost recsRead ref int
+//@ pred rdLoaded(i) = i.freqNormReader != nil && len(i.freqNormReader.curChunkBytes) > 0
+//@ pred itGeneral(i) = i.normBits1Hit == 0 && i.Actual != nil && i.postings != nil && i.postings != emptyPostingsList
+//@ pred itWF(i) = i.all != nil && i.postings.chunkSize >= 1 && i.postings.chunkSize <= 0xffffffff && itRank(i.Actual) >= 0 && itRank(i.all) >= 0 && (i.postings.postings != i.ActualBM ==> payload(i.Actual) != payload(i.all)) && (i.postings.postings == i.ActualBM ==> i.Actual == i.all) && (i.includeFreqNorm ==> i.freqNormReader != nil && (i.includeLocs ==> i.locReader != nil && i.locReader != i.freqNormReader))
+//@ pred itSubset(i) = forall x uint32 :: {sHas(itSet(i.Actual), x)} sHas(itSet(i.Actual), x) ==> sHas(itSet(i.all), x)
+//@ pred itBehind(i) = itRank(i.Actual) < sCard(itSet(i.Actual)) ==> sRank(itSet(i.all), int(sNth(itSet(i.Actual), itRank(i.Actual)))) >= itRank(i.all)
+//@ pred itLock(i) = i.includeFreqNorm ==> (itRank(i.all) == 0 && !rdLoaded(i)) || (rdLoaded(i) && itRank(i.all) >= 1 && itRank(i.all) <= sCard(itSet(i.all)) && recsRead(i) == itRank(i.all) - sRank(itSet(i.all), int(i.currChunk) * int(i.postings.chunkSize)) && int(sNth(itSet(i.all), itRank(i.all) - 1)) / int(i.postings.chunkSize) == int(i.currChunk))
+//@ pred itDone(i) = itRank(i.Actual) >= sCard(itSet(i.Actual))
+//@ pred itInv(i) = itGeneral(i) ==> itDone(i) || (itBehind(i) && itLock(i))
+//@ pred itLockAt(i, n) = itRank(i.all) >= 1 && itRank(i.all) <= sCard(itSet(i.all)) && int(sNth(itSet(i.all), itRank(i.all) - 1)) == int(n) && (i.includeFreqNorm ==> rdLoaded(i) && int(i.currChunk) == int(n) / int(i.postings.chunkSize) && recsRead(i) == itRank(i.all) - 1 - sRank(itSet(i.all), int(i.currChunk) * int(i.postings.chunkSize)))
+
+//@ func (*chunkedIntDecoder).isNil returns (b)
+//@ tags [C07]
+//@ requires d != nil
+//@ modifies nothing
+//@ ensures b == (len(d.curChunkBytes) == 0)
+//@ end
+
+//@ func (*chunkedIntDecoder).loadChunk returns (err)
+//@ thin
+//@ tags [C07]
+//@ requires d != nil && chunk >= 0
+//@ modifies chunkedIntDecoder.curChunkBytes[d], chunkedIntDecoder.bytesRead[d], chunkedIntDecoder.r[d], memUvarintReader.*, alloc, elems(any)
+//@ end
+
+//@ func (*chunkedIntDecoder).reset
+//@ tags [C07]
+//@ requires d != nil
+//@ ensures len(d.curChunkBytes) == 0 [C07]
+//@ modifies chunkedIntDecoder.*[d], memUvarintReader.*
+//@ end
+
+//@ func newChunkedIntDecoder returns (r)
+//@ thin
+//@ tags [C07]
+//@ ensures rv != nil ==> r == rv && r.curChunkBytes == old(rv.curChunkBytes) [C07]
+//@ ensures rv == nil ==> r != nil && fresh(r) && len(r.curChunkBytes) == 0 [C07]
+//@ modifies chunkedIntDecoder.startOffset[rv], chunkedIntDecoder.data[rv], chunkedIntDecoder.chunkOffsets[rv], chunkedIntDecoder.bytesRead[rv], chunkedIntDecoder.dataStartOffset[rv], new chunkedIntDecoder.*, elems(uint64), alloc
+//@ end
+
+//@ func (*PostingsIterator).loadChunk returns (err)
+//@ thin
+//@ tags [C07]
+//@ requires i != nil && chunk >= 0 && (i.includeFreqNorm ==> i.freqNormReader != nil) && (i.includeLocs ==> i.locReader != nil && i.locReader != i.freqNormReader)
+// data well-formedness, assumed: a chunk that is loaded because a document of the list lies in it is not empty
+//@ assume (*chunkedIntDecoder).loadChunk#1 : len(i.freqNormReader.curChunkBytes) > 0
+//@ ensures err == nil ==> i.currChunk == uint32(chunk) && recsRead(i) == 0 [C07]
+//@ ensures err == nil && i.includeFreqNorm ==> rdLoaded(i) [C07]
+//@ ghostset recsRead[i] = 0
+//@ modifies PostingsIterator.currChunk[i], PostingsIterator.bytesRead[i], chunkedIntDecoder.curChunkBytes, chunkedIntDecoder.bytesRead, chunkedIntDecoder.r, memUvarintReader.*, alloc, elems(any), ghost recsRead[i]
+//@ end
+
+//@ func (*PostingsIterator).readFreqNormHasLocs returns (freq, normBits, hasLocs, err)
+//@ thin
+//@ tags [C07]
+//@ requires i != nil && (i.normBits1Hit == 0 ==> i.freqNormReader != nil)
+//@ wf requires i.normBits1Hit == 0 ==> i.freqNormReader.r != nil && i.freqNormReader.r.C >= 0 && i.freqNormReader.r.C <= 0x4000000000000000
+//@ ghostset recsRead[i] = ite(i.normBits1Hit == 0 && err == nil, old(recsRead(i)) + 1, old(recsRead(i)))
+//@ modifies memUvarintReader.C, alloc, elems(any), ghost recsRead[i]
+//@ end
+
+//@ func (*PostingsIterator).skipFreqNormReadHasLocs returns (hasLocs, err)
+//@ thin
+//@ tags [C07]
+//@ requires i != nil && (i.normBits1Hit == 0 ==> i.freqNormReader != nil)
+//@ wf requires i.normBits1Hit == 0 ==> i.freqNormReader.r != nil && i.freqNormReader.r.C >= 0 && i.freqNormReader.r.C <= 0x4000000000000000
+//@ ghostset recsRead[i] = ite(i.normBits1Hit == 0 && err == nil, old(recsRead(i)) + 1, old(recsRead(i)))
+//@ modifies memUvarintReader.C, alloc, elems(any), ghost recsRead[i]
+//@ end
+
+//@ func (*PostingsIterator).currChunkNext returns (err)
+//@ thin
+//@ tags [C07]
+//@ requires i != nil && i.normBits1Hit == 0 && i.includeFreqNorm && i.freqNormReader != nil && (i.includeLocs ==> i.locReader != nil && i.locReader != i.freqNormReader)
+//@ wf requires i.includeLocs ==> i.locReader.r != nil && i.locReader.r.C >= 0
+//@ ensures err == nil ==> i.currChunk == nChunk && rdLoaded(i) [C07]
+//@ ensures err == nil ==> recsRead(i) == ite(old(i.currChunk) == nChunk && old(rdLoaded(i)), old(recsRead(i)), 0) + 1 [C07]
+//@ modifies PostingsIterator.currChunk[i], PostingsIterator.bytesRead[i], chunkedIntDecoder.curChunkBytes, chunkedIntDecoder.bytesRead, chunkedIntDecoder.r, memUvarintReader.*, alloc, elems(any), ghost recsRead[i]
+//@ end
+
+// the "clean" path (no exclusion: Actual and all are the same cursor); sameChunkNexts counts the records to skip
+//@ func (*PostingsIterator).nextDocNumAtOrAfterClean returns (docNum, found, err)
+//@ thin
+//@ tags [C07]
+//@ requires i != nil && itGeneral(i) && i.postings.postings == i.ActualBM && atOrAfter <= 0xffffffff
+//@ wf requires itWF(i)
+//@ requires itRank(i.Actual) < sCard(itSet(i.Actual)) && itLock(i) [C07]
+//@ ensures err == nil && found ==> itLockAt(i, docNum) && docNum >= atOrAfter [C07]
+//@ ensures err == nil && !found ==> itRank(i.Actual) >= sCard(itSet(i.Actual)) [C07]
+//@ ensures i.postings == old(i.postings) && i.all == old(i.all) && i.Actual == old(i.Actual) && i.ActualBM == old(i.ActualBM) && i.normBits1Hit == 0
+//@ loop 1 invariant itGeneral(i) && itWF(i) && i.includeFreqNorm && i.postings == old(i.postings) && i.all == old(i.all) && i.Actual == old(i.Actual) && i.ActualBM == old(i.ActualBM) && i.freqNormReader == old(i.freqNormReader) && i.locReader == old(i.locReader) && i.includeLocs == old(i.includeLocs)
+//@ loop 1 invariant i.currChunk == old(i.currChunk) && rdLoaded(i) == old(rdLoaded(i)) && recsRead(i) == old(recsRead(i))
+//@ loop 1 invariant itRank(i.all) >= old(itRank(i.all)) + 1 && itRank(i.all) <= sCard(itSet(i.all)) && int(n) == int(sNth(itSet(i.all), itRank(i.all) - 1)) && nChunk == n / uint32(i.postings.chunkSize)
+//@ loop 1 invariant sameChunkNexts == itRank(i.all) - 1 - ite(old(itRank(i.all)) >= sRank(itSet(i.all), int(nChunk) * int(i.postings.chunkSize)), old(itRank(i.all)), sRank(itSet(i.all), int(nChunk) * int(i.postings.chunkSize))) [C07]
+//@ loop 2 invariant itGeneral(i) && itWF(i) && i.includeFreqNorm && i.postings == old(i.postings) && i.all == old(i.all) && i.Actual == old(i.Actual) && i.ActualBM == old(i.ActualBM) && i.freqNormReader == old(i.freqNormReader) && i.locReader == old(i.locReader) && i.includeLocs == old(i.includeLocs)
+//@ loop 2 invariant 0 <= j && (sameChunkNexts >= 0 ==> j <= sameChunkNexts) && itRank(i.all) == entry(itRank(i.all))
+//@ loop 2 invariant j == 0 ==> i.currChunk == old(i.currChunk) && rdLoaded(i) == old(rdLoaded(i)) && recsRead(i) == old(recsRead(i))
+//@ loop 2 invariant j > 0 ==> rdLoaded(i) && i.currChunk == nChunk && recsRead(i) == ite(old(rdLoaded(i)) && old(i.currChunk) == nChunk, old(recsRead(i)), 0) + j [C07]
+//@ end
+
 //@ func (*PostingsIterator).nextDocNumAtOrAfter returns (docNum, found, err)
 //@ thin
 //@ tags [C07]
 //@ requires i != nil
+//@ wf requires itGeneral(i) ==> itWF(i) && itSubset(i)
+//@ requires itInv(i) [C07]
 //@ ensures old(i.normBits1Hit) != 0 ==> err == nil && i.docNum1Hit == DocNum1HitFinished && i.normBits1Hit == old(i.normBits1Hit)
 //@ ensures old(i.normBits1Hit) != 0 ==> (found <==> (old(i.docNum1Hit) != DocNum1HitFinished && old(i.docNum1Hit) >= atOrAfter))
 //@ ensures old(i.normBits1Hit) != 0 && found ==> docNum == old(i.docNum1Hit)
 //@ ensures old(i.normBits1Hit) != 0 && !found ==> docNum == 0
+//@ ensures err == nil && found && old(i.normBits1Hit) == 0 ==> itLockAt(i, docNum) && docNum >= atOrAfter [C07]
+//@ ensures err == nil && found && old(i.normBits1Hit) == 0 ==> itBehind(i) && itGeneral(i) [C07]
+//@ ensures err == nil && found && old(i.normBits1Hit) == 0 && i.postings.postings != i.ActualBM ==> sHas(itSet(i.Actual), uint32(docNum)) [C07]
+//@ ensures err == nil && !found && old(itGeneral(i)) ==> itDone(i) [C07]
+//@ ensures i.postings == old(i.postings) && i.all == old(i.all) && i.Actual == old(i.Actual) && i.ActualBM == old(i.ActualBM) && i.includeFreqNorm == old(i.includeFreqNorm) && i.includeLocs == old(i.includeLocs) && i.freqNormReader == old(i.freqNormReader) && i.locReader == old(i.locReader)
+//@ loop 1 invariant i.normBits1Hit == 0 && itGeneral(i) && itWF(i) && itSubset(i) && i.postings.postings != i.ActualBM && i.postings == old(i.postings) && i.all == old(i.all) && i.Actual == old(i.Actual) && i.includeFreqNorm == old(i.includeFreqNorm) && i.includeLocs == old(i.includeLocs) && i.freqNormReader == old(i.freqNormReader) && i.locReader == old(i.locReader)
+//@ loop 1 invariant itRank(i.all) >= 1 && itRank(i.all) <= sCard(itSet(i.all)) && int(allN) == int(sNth(itSet(i.all), itRank(i.all) - 1))
+//@ loop 1 invariant allN <= n
+//@ loop 1 invariant sHas(itSet(i.all), n) && sHas(itSet(i.Actual), n)
+//@ loop 1 invariant uint64(n) >= atOrAfter
+//@ loop 1 invariant nChunk == n / uint32(i.postings.chunkSize) && int(allNReachesNChunk) == int(nChunk) * int(i.postings.chunkSize) && itRank(i.Actual) >= 1 && int(n) == int(sNth(itSet(i.Actual), itRank(i.Actual) - 1)) && itRank(i.Actual) <= sCard(itSet(i.Actual))
+//@ loop 1 invariant i.includeFreqNorm && rdLoaded(i) && i.currChunk == nChunk ==> recsRead(i) == itRank(i.all) - 1 - sRank(itSet(i.all), int(allNReachesNChunk)) && itRank(i.all) - 1 >= sRank(itSet(i.all), int(allNReachesNChunk)) [C07]
+//@ loop 1 invariant i.includeFreqNorm && !(rdLoaded(i) && i.currChunk == nChunk) ==> itRank(i.all) - 1 <= sRank(itSet(i.all), int(allNReachesNChunk)) [C07]
+//@ end
+
+//@ func (*PostingsIterator).readLocation returns (err)
+//@ thin
+//@ tags [C07]
+//@ requires i != nil && l != nil && i.locReader != nil
+//@ modifies memUvarintReader.C, Location.*[l], elems(uint64), alloc, elems(any)
+//@ end
+
+// Next / Advance: the record read for the returned document is its own (lock-step), and the cursor invariant is kept
+//@ func (*PostingsIterator).nextAtOrAfter returns (p, err)
+//@ thin
+//@ tags [C07]
+//@ requires i != nil
+//@ wf requires itGeneral(i) ==> itWF(i) && itSubset(i)
+//@ requires itInv(i) [C07]
+//@ assert (*PostingsIterator).readFreqNormHasLocs#1 : i.normBits1Hit == 0 ==> itLockAt(i, docNum) [C07]
+//@ ensures err == nil ==> itInv(i) [C07]
+//@ ensures err == nil && p == nil && old(itGeneral(i)) ==> itDone(i) [C07]
+//@ end
+
+//@ func (*PostingsIterator).nextBytes returns (docNumOut, freq, normBits, bytesFreqNorm, bytesLoc, err)
+//@ thin
+//@ tags [C06,C07]
+//@ requires i != nil
+//@ wf requires itGeneral(i) ==> itWF(i) && itSubset(i) && i.includeFreqNorm
+//@ requires itInv(i) [C07]
+//@ assert (*PostingsIterator).readFreqNormHasLocs#1 : i.normBits1Hit == 0 ==> itLockAt(i, docNum) [C06,C07]
+//@ ensures err == nil ==> itInv(i) [C07]
 //@ end
 
 //@ func (*PostingsIterator).DocNum1Hit returns (docNum, ok)
@@ -609,7 +764,10 @@ func lemma1HitDiscriminator(docNum, normBits uint64) {
 //@ thin
 //@ tags [C07]
 //@ requires p != nil && abm != nil
-//@ ensures p.ActualBM == abm && itSet(p.Actual) == bmSet(abm)
+//@ ensures p.ActualBM == abm && itSet(p.Actual) == bmSet(abm) && itRank(p.Actual) == 0 && fresh(payload(p.Actual)) [C07]
+// replacing the actual bitmap of an iterator that has not handed out anything yet keeps it in lock-step
+//@ ensures old(itRank(p.all)) == 0 && old(p.includeFreqNorm ==> !rdLoaded(p)) ==> itInv(p) [C07]
+//@ modifies PostingsIterator.ActualBM[p], PostingsIterator.Actual[p], alloc, new ghost itSet, new ghost itRank
 //@ end
 
 //@ func (*PostingsList).iterator returns (it)
@@ -627,6 +785,11 @@ func lemma1HitDiscriminator(docNum, normBits uint64) {
 //@ ensures p.normBits1Hit == 0 && p.postings == nil ==> it.all == nil && it.Actual == nil && it.ActualBM == nil
 //@ ensures p.normBits1Hit == 0 && p.postings != nil && p.except == nil ==> it.ActualBM == p.postings && it.Actual == it.all && itSet(it.all) == bmSet(p.postings)
 //@ ensures p.normBits1Hit == 0 && p.postings != nil && p.except != nil ==> bmSet(it.ActualBM) == sAndNot(bmSet(p.postings), bmSet(p.except)) && itSet(it.Actual) == bmSet(it.ActualBM) && itSet(it.all) == bmSet(p.postings)
+// a new (or re-initialised) iterator starts in lock-step: nothing consumed, no chunk loaded, Actual within all
+//@ ensures p.normBits1Hit == 0 && p.postings != nil ==> itRank(it.all) == 0 && itRank(it.Actual) == 0 && (it.includeFreqNorm ==> it.freqNormReader != nil && !rdLoaded(it)) [C07]
+//@ ensures p.normBits1Hit == 0 && p.postings != nil ==> (it.postings.postings != it.ActualBM ==> payload(it.Actual) != payload(it.all)) && (it.postings.postings == it.ActualBM ==> it.Actual == it.all) [C07]
+//@ ensures p.normBits1Hit == 0 && p.postings != nil ==> itSubset(it) [C07]
+//@ ensures p != emptyPostingsList ==> itInv(it) [C07]
 //@ end
 
 // ---- C18 / C19: the section merges observe the close channel ----
@@ -994,7 +1157,65 @@ func lemmaUvLenRange(a []byte, o int) {}
 //@ loop 1 invariant forall j int :: 0 <= j && j < len(chunkOffsets) ==> chunkOffsets[j] == entry(chunkOffsets[j])
 //@ end
 
+//@ func writeUvarints returns (tw, err)
+//@ thin
+//@ tags [C02,C03,C09,C17]
+//@ propagates err from io.Writer.Write, (*CountHashWriter).Write [C17]
+//@ modifies bytes.Buffer.*, CountHashWriter.*, bufWriter.*, elems(uint8), alloc, ghost wrBytes, ghost bwDirty, ghost bwErr
+//@ end
+
+// ---- C01 / C09: writer and reader derive a term's chunk size from the same three numbers ----
+// (the reader, PostingsList.read, uses the segment's chunk mode, the cardinality of the postings bitmap and numDocs)
+//@ func (*invertedIndexOpaque).writeDicts returns (dictOffsets, err)
+//@ thin
+//@ tags [C01,C09]
+//@ assert getChunkSize#1 : $chunkMode == io.chunkMode && $maxDocs == uint64(len(io.results)) [C01,C09]
+//@ assert getChunkSize#1 : $cardinality == ite(postingsBS != nil, uint64(sCard(bmSet(postingsBS))), 0) [C01,C09]
+//@ assert getChunkSize#2 : $chunkMode == LegacyChunkMode && $cardinality == 0 && $maxDocs == 0 [C01,C03,C09]
+//@ end
+
+// ---- C03 / C06: the chunked content coder (doc values) files every document under the chunk of its number ----
+
+//@ func (*chunkedContentCoder).flushContents returns (err)
+//@ thin
+//@ tags [C03,C06]
+//@ requires c != nil
+//@ ensures c.currChunk == old(c.currChunk) [C03]
+//@ ensures c.chunkSize == old(c.chunkSize) [C03]
+//@ ensures c.chunkMeta == old(c.chunkMeta) [C03]
+//@ ensures len(c.chunkLens) == old(len(c.chunkLens)) && base(c.chunkLens) == old(base(c.chunkLens)) && off(c.chunkLens) == old(off(c.chunkLens))
+//@ loop 1 invariant c.currChunk == old(c.currChunk) && c.chunkSize == old(c.chunkSize) && c.chunkMeta == old(c.chunkMeta) && c.chunkLens == old(c.chunkLens)
+//@ end
+
+//@ func (*chunkedContentCoder).Add returns (err)
+//@ thin
+//@ tags [C03,C06]
+//@ wf requires c != nil && c.chunkSize >= 1
+//@ ensures err == nil ==> c.currChunk == docNum / c.chunkSize && c.chunkSize == old(c.chunkSize) [C03,C06]
+//@ ensures err == nil && docNum / c.chunkSize == old(c.currChunk) ==> len(c.chunkMeta) == old(len(c.chunkMeta)) + 1 [C03]
+//@ ensures err == nil && docNum / c.chunkSize != old(c.currChunk) ==> len(c.chunkMeta) == 1 [C03]
+//@ propagates err from (*chunkedContentCoder).flushContents [C03,C17]
+//@ end
+
+//@ func (*chunkedContentCoder).Close returns (err)
+//@ thin
+//@ tags [C03,C06]
+//@ requires c != nil
+//@ ensures c.currChunk == old(c.currChunk) && c.chunkSize == old(c.chunkSize)
+//@ propagates err from (*chunkedContentCoder).flushContents [C03,C17]
+//@ end
+
 // ---- C12: thesaurus lookups ----
+
+// a field that is not a thesaurus of this build has no thesaurus address (Thesaurus(name) then answers "empty")
+//@ func (*synonymIndexSection).AddrForField returns (addr)
+//@ thin
+//@ tags [C12]
+//@ ensures synIndexOpaque == nil || synIndexOpaque.FieldIDtoThesaurusID == nil ==> addr == 0
+//@ ensures synIndexOpaque != nil && synIndexOpaque.FieldIDtoThesaurusID != nil && !haskey(synIndexOpaque.FieldIDtoThesaurusID, uint16(fieldID)) ==> addr == 0
+//@ ensures synIndexOpaque != nil && synIndexOpaque.FieldIDtoThesaurusID != nil && haskey(synIndexOpaque.FieldIDtoThesaurusID, uint16(fieldID)) && haskey(synIndexOpaque.thesaurusAddrs, mapget(synIndexOpaque.FieldIDtoThesaurusID, uint16(fieldID))) ==> addr == mapget(synIndexOpaque.thesaurusAddrs, mapget(synIndexOpaque.FieldIDtoThesaurusID, uint16(fieldID)))
+//@ end
+
 
 //@ func encodeSynonym returns (code)
 //@ mode bv
@@ -1082,6 +1303,9 @@ func lemmaSynonymCodeRoundTrip(synonymID, docID uint32) {
 //@ thin
 //@ tags [C06]
 //@ requires coderSized(tfEncoder) && coderSized(locEncoder)
+//@ requires postItr != nil && itInv(postItr) [C06,C07]
+//@ wf requires itGeneral(postItr) ==> itWF(postItr) && itSubset(postItr)
+//@ loop 1 invariant postItr == old(postItr) && (err == nil ==> itInv(postItr)) && coderSized(tfEncoder) && coderSized(locEncoder) [C06,C07]
 //@ ensures coderSized(tfEncoder) && coderSized(locEncoder)
 //@ modifies *, ghost bmSet, ghost itSet
 //@ end
@@ -1090,6 +1314,9 @@ func lemmaSynonymCodeRoundTrip(synonymID, docID uint32) {
 //@ thin
 //@ tags [C06]
 //@ requires coderSized(tfEncoder) && coderSized(locEncoder)
+//@ requires postItr != nil && itInv(postItr) [C06,C07]
+//@ wf requires itGeneral(postItr) ==> itWF(postItr) && itSubset(postItr) && postItr.includeFreqNorm
+//@ loop 1 invariant postItr == old(postItr) && (err == nil ==> itInv(postItr)) && coderSized(tfEncoder) && coderSized(locEncoder) [C06,C07]
 //@ ensures coderSized(tfEncoder) && coderSized(locEncoder)
 //@ modifies *, ghost bmSet, ghost itSet
 //@ end
@@ -1187,7 +1414,69 @@ func lemmaSynonymCodeRoundTrip(synonymID, docID uint32) {
 //@ requires sb != nil && muHeld(sb.m) == 0
 //@ ensures muHeld(sb.m) == 0 [C08,C11]
 //@ ensures err != nil ==> rv == nil [C08]
-//@ ensures rv != nil ==> rv.sb == sb [C08]
+//@ ensures rv != nil ==> rv.sb == sb && fresh(rv) [C02,C08]
+//@ ensures rv != nil && rv.fstReader != nil ==> rdFst(rv.fstReader) == rv.fst [C02,C08]
+//@ ensures rv != nil && rv.fstReader == nil ==> rv.fst == nil [C02,C08]
+//@ ensures sb.mem == old(sb.mem) && row(sb.mem) == old(row(sb.mem)) [C02]
+//@ end
+
+// ---- C02 / C08: term lookup; what a postings entry denotes ----
+// docsAt(A, o, v): the documents denoted by FST value v in a segment whose bytes start at A[o]:
+// a single-hit value carries the document itself; otherwise v is the offset of
+// uvarint(freqOffset) uvarint(locOffset) uvarint(len) roaring-bytes[len]
+//@ specfun pleL1(A row8, o int, v int) int = uvLen(A, o+v)
+//@ specfun pleL2(A row8, o int, v int) int = uvLen(A, o+v+pleL1(A,o,v))
+//@ specfun pleL3(A row8, o int, v int) int = uvLen(A, o+v+pleL1(A,o,v)+pleL2(A,o,v))
+//@ specfun docsAt(A row8, o int, v uint64) set = ite(v & FSTValEncodingMask == FSTValEncoding1Hit, ite((v >> 31) & mask31Bits != 0, sAdd(sEmpty(), uint32(v & mask31Bits)), sEmpty()), sOfBytes(A, o+int(v)+pleL1(A,o,int(v))+pleL2(A,o,int(v))+pleL3(A,o,int(v)), int(uvVal(A, o+int(v)+pleL1(A,o,int(v))+pleL2(A,o,int(v))))))
+//@ pred plDocsIs(p, S) = (p.normBits1Hit != 0 ==> S == sAdd(sEmpty(), uint32(p.docNum1Hit))) && (p.normBits1Hit == 0 && p.postings != nil ==> S == bmSet(p.postings)) && (p.normBits1Hit == 0 && p.postings == nil ==> S == sEmpty())
+
+//@ func (*Dictionary).postingsListFromOffset returns (r, err)
+//@ thin
+//@ tags [C02,C07,C08]
+//@ requires d != nil && d.sb != nil && allzero(emptyPostingsList)
+//@ ensures err == nil ==> r != nil && r != emptyPostingsList && plDocsIs(r, docsAt(row(d.sb.mem), off(d.sb.mem), postingsOffset)) [C02,C08]
+//@ ensures err == nil ==> r.except == except && r.sb == d.sb
+//@ ensures allzero(emptyPostingsList) [C11]
+//@ ensures err == nil && r.postings != nil ==> (rv != nil && r.postings == old(rv.postings)) || fresh(r.postings)
+//@ modifies PostingsList.*[rv] if rv != nil && rv != emptyPostingsList, new PostingsList.*, alloc, new ghost bmSet, ghost bmSet[rv.postings] if rv != nil, elems(any)
+//@ end
+
+//@ func (*Dictionary).postingsList returns (r, err)
+//@ thin
+//@ tags [C02,C07,C08]
+//@ requires d != nil && d.sb != nil && allzero(emptyPostingsList) && (d.fstReader != nil ==> rdFst(d.fstReader) == d.fst)
+//@ ensures err == nil ==> r != nil
+//@ ensures err == nil && (d.fstReader == nil || !fstHas(d.fst, str(term))) ==> plDocsIs(r, sEmpty()) [C02,C08]
+//@ ensures err == nil && d.fstReader != nil && fstHas(d.fst, str(term)) ==> plDocsIs(r, docsAt(row(d.sb.mem), off(d.sb.mem), fstVal(d.fst, str(term)))) [C02,C08]
+//@ ensures allzero(emptyPostingsList) [C11]
+//@ ensures err == nil && r.postings != nil ==> (rv != nil && r.postings == old(rv.postings)) || fresh(r.postings)
+//@ modifies PostingsList.*[rv] if rv != nil && rv != emptyPostingsList, new PostingsList.*, alloc, new ghost bmSet, ghost bmSet[rv.postings] if rv != nil, elems(any)
+//@ end
+
+//@ func (*PostingsList).OrInto
+//@ thin
+//@ tags [C02]
+//@ requires p != nil && receiver != nil && receiver != p.postings
+//@ ensures p.normBits1Hit != 0 ==> bmSet(receiver) == sAdd(old(bmSet(receiver)), uint32(p.docNum1Hit))
+//@ ensures p.normBits1Hit == 0 && p.postings != nil ==> bmSet(receiver) == sOr(old(bmSet(receiver)), bmSet(p.postings))
+//@ ensures p.normBits1Hit == 0 && p.postings == nil ==> bmSet(receiver) == old(bmSet(receiver))
+//@ modifies ghost bmSet[receiver]
+//@ end
+
+// the documents of ids[0..k): the union of what each id denotes in the _id dictionary
+//@ specfunrec idsUnion(f ref, A row8, o int, R rowstr, ro int, k int) set = ite(k <= 0, sEmpty(), sOr(idsUnion(f, A, o, R, ro, k-1), ite(fstHas(f, R[ro+k-1]), docsAt(A, o, fstVal(f, R[ro+k-1])), sEmpty())))
+
+//@ func (*SegmentBase).DocNumbers returns (r, err)
+//@ thin
+//@ tags [C02]
+//@ requires s != nil && muHeld(s.m) == 0 && allzero(emptyPostingsList)
+//@ ensures err == nil ==> r != nil
+//@ ensures err == nil && old(len(s.fieldsMap)) == 0 ==> bmSet(r) == sEmpty() [C02]
+//@ ensures err == nil && old(len(s.fieldsMap)) > 0 ==> bmSet(r) == idsUnion(idDict.fst, row(s.mem), off(s.mem), row(ids), off(ids), len(ids)) [C02]
+//@ loop 1 invariant rv != nil && rv == entry(rv) && idDict != nil && idDict.sb == s && (idDict.fstReader != nil ==> rdFst(idDict.fstReader) == idDict.fst) && (idDict.fstReader == nil ==> idDict.fst == nil) && allzero(emptyPostingsList)
+//@ loop 1 invariant s.mem == old(s.mem) && row(s.mem) == old(row(s.mem)) && idDict.fst == entry(idDict.fst)
+//@ loop 1 invariant postingsList != nil && postingsList.postings != rv && 0 <= $k && $k <= len(ids)
+//@ loop 1 invariant bmSet(rv) == idsUnion(idDict.fst, row(s.mem), off(s.mem), row(ids), off(ids), $k) [C02]
 //@ end
 
 //@ func (*Dictionary).Contains returns (ok, err)
